@@ -3,7 +3,7 @@
    cong m a b := exists c, a - b = c * m.
    sound f m k fr (ok,n,d) := ok = true -> cong m n (d*f) /\ |n| < k /\ 0 < d /\ (fr = true -> Z.gcd n d = 1). *)
 From Coq Require Import ZArith.
-From C11 Require Import Model ProofsLoop ProofsSound ProofsComplete ProofsEntry PolyModel PolyProofs PolyLists.
+From C11 Require Import Model ProofsLoop ProofsSound ProofsComplete ProofsEntry ProofsTotal PolyModel PolyProofs PolyLists.
 Local Open Scope Z_scope.
 
 (* the loop of ratrecon terminates within the fuel 2*log2 m + 4 for every f, m >= 2, k >= 1 *)
@@ -18,9 +18,32 @@ Print Assumptions C11_rr4_sound.
 (* RationalReconstruction(a,b,f,m,k,forcereduce,recursive) including the widening loop *)
 Theorem C11_rr7_sound : RR7_sound.                             Proof. exact rr7_sound. Qed.
 Print Assumptions C11_rr7_sound.
-(* RationalReconstruction(a,b,x,m,a_bound,b_bound)  (as repaired by /repo commit 68125ac) *)
-Theorem C11_rr6_sound : RR6_sound.                             Proof. exact rr6_sound. Qed.
-Print Assumptions C11_rr6_sound.
+(* RationalReconstruction(a,b,x,m,numbound,denbound).
+   Body with `bound = x/bb` (in /repo until frag/C11.fix-2.diff is applied; HISTORY afterwards): a success satisfies the clauses for
+   the bound max(x/denbound, numbound) the code derives - NOT for the caller's numbound, which is refuted: 31 mod 101, (2, 3) -> -8/3 *)
+Theorem C11_rr6_sound_derived_bound : RR6_sound.               Proof. exact rr6_sound. Qed.
+Print Assumptions C11_rr6_sound_derived_bound.
+Theorem C11_rr6_numbound_refuted : RR6_numbound_refuted.       Proof. exact rr6_numbound_refuted. Qed.
+Print Assumptions C11_rr6_numbound_refuted.
+(* repaired body (ratrecon is given numbound itself): the property's clauses against the caller's bounds, and completeness *)
+Theorem C11_rr6f_sound : RR6f_sound.                           Proof. exact rr6f_sound. Qed.
+Print Assumptions C11_rr6f_sound.
+Theorem C11_rr6f_complete : RR6f_complete.                     Proof. exact rr6f_complete. Qed.
+Print Assumptions C11_rr6f_complete.
+(* totality: inside the domain (m >= 2, bound >= 1; denbound <> 0 for the x/bb body, whose C++ divides by zero there) no wrapper
+   answers None - the widening fuel log2 f + 2 suffices - so the conditional theorems are not vacuous for lack of fuel *)
+Theorem C11_rr4_total : RR4_total.                             Proof. exact rr4_total. Qed.
+Print Assumptions C11_rr4_total.
+Theorem C11_rr7_total : RR7_total.                             Proof. exact rr7_total. Qed.
+Print Assumptions C11_rr7_total.
+Theorem C11_rr6_total : RR6_total.                             Proof. exact rr6_total. Qed.
+Print Assumptions C11_rr6_total.
+Theorem C11_rr6f_total : RR6f_total.                           Proof. exact rr6f_total. Qed.
+Print Assumptions C11_rr6f_total.
+Theorem C11_rational_ctor_total : RatCtor_total.               Proof. exact ratctor_total. Qed.
+Print Assumptions C11_rational_ctor_total.
+Theorem C11_qfield_total : QField_total.                       Proof. exact qfield_total. Qed.
+Print Assumptions C11_qfield_total.
 (* Rational(f,m,k,recurs) / QField<Rational>::ratrecon (no success report): for EVERY f, m >= 2, 1 <= k <= m, any flags / recurs
    (widening loop beyond m included) the stored pair has num == den*f (mod m) and den > 0 *)
 Theorem C11_ratrecon_pair_always_congruent : Ratrecon_always.  Proof. exact ratrecon_always. Qed.
@@ -44,7 +67,8 @@ Theorem C11_rational_ctor_sound : RatCtor_sound.               Proof. exact ratc
 Print Assumptions C11_rational_ctor_sound.
 Theorem C11_qfield_ratrecon_sound : QField_sound.              Proof. exact qfield_sound. Qed.
 Print Assumptions C11_qfield_ratrecon_sound.
-(* ... and when the first call succeeds the constructor stores exactly that reconstruction (the widening loop does not run) *)
+(* ... and when the first call succeeds the constructor stores exactly that reconstruction (the widening loop does not run;
+   an unfolding of the model, stated because it is the clause the oracle judges on ctor / qfk / qf) *)
 Theorem C11_rational_ctor_first : RatCtor_first.               Proof. exact ratctor_first. Qed.
 Print Assumptions C11_rational_ctor_first.
 (* completeness through every other entry point: RationalReconstruction(a,b,f,m,k,fr,rc) (any representative f, also the x == 0
@@ -77,6 +101,18 @@ Theorem C11_list_ratrecon_sound : List_ratrecon_sound.         Proof. exact list
 Print Assumptions C11_list_ratrecon_sound.
 Theorem C11_list_ratrecon6_sound : List_ratrecon6_sound.       Proof. exact list_ratrecon6_sound. Qed.
 Print Assumptions C11_list_ratrecon6_sound.
-(* a success of ratreconcheck passed the gcd-degree test and is ratrecon's pair, possibly divided by leadcoef D *)
-Theorem C11_list_ratreconcheck_reduced : List_ratreconcheck_reduced. Proof. exact list_ratreconcheck_reduced. Qed.
-Print Assumptions C11_list_ratreconcheck_reduced.
+(* a success of ratreconcheck passed the gcd-degree test of the MODEL of Poly1Dom::gcd (an unfolding of the model; that this gcd
+   model computes a gcd is C08's subject: reducedness itself is judged by the oracle) and is ratrecon's pair, possibly divided by leadcoef D *)
+Theorem C11_list_ratreconcheck_passed_gcd_test : List_ratreconcheck_reduced. Proof. exact list_ratreconcheck_reduced. Qed.
+Print Assumptions C11_list_ratreconcheck_passed_gcd_test.
+(* the list instance terminates within its fuel (C08.ProofsDivDeg: deg of the remainder of the Newton-inverse division) *)
+Theorem C11_list_ratrecon_total : List_ratrecon_total.         Proof. exact list_ratrecon_total. Qed.
+Print Assumptions C11_list_ratrecon_total.
+(* END TO END, the functions that are extracted and run: zp_ratrecon5 / zp_ratreconcheck / zp_ratrecon6 compute over C08.Fp.FpDom q (subset
+   type of canonical residues; FieldOK proved for prime q in C08.ProofsFp).  For every prime q, thresholds >= 1, integer coefficient
+   lists P, M, 0 <= dk < deg M: a success returns canonical lists N, D, images of polynomials N', D' over F_q with
+   N' - D' P = C M, deg N' <= dk, D' <> 0; and the executed functions never answer None. *)
+Theorem C11_fp_ratrecon_sound : Fp_ratrecon_sound.             Proof. exact fp_ratrecon_sound. Qed.
+Print Assumptions C11_fp_ratrecon_sound.
+Theorem C11_fp_ratrecon_total : Fp_ratrecon_total.             Proof. exact fp_ratrecon_total. Qed.
+Print Assumptions C11_fp_ratrecon_total.
